@@ -34,3 +34,29 @@ Section Instances.
   #[global] Instance Ravel_mC : Ravel C := m_ravelC.
   #[global] Instance Ravel_mR : Ravel R := m_ravelR.
 End Instances.
+
+(** signature of the [__call__] methods of scico/functional/_norm.py (coq/gen/C09_{L0,L1,SqL2,L2,L1mL2}.v) *)
+Class NormSig (K C R : Type) := {
+  n_abs : C -> R;               (* snp.abs *)
+  n_sqr : R -> R -> R;          (* r ** 2, emitted as r * r *)
+  n_sum : R -> K;               (* snp.sum *)
+  n_norm : C -> K;              (* norm / snp.linalg.norm *)
+  n_count : C -> K;             (* count_nonzero *)
+}.
+
+Section NormInstances.
+  Context {K C R : Type} {NK : Num K} {NS : NormSig K C R}.
+  #[global] Instance HAbs_nC : HAbs C R := n_abs.
+  #[global] Instance HMul_nR : HMul R R R := n_sqr.
+End NormInstances.
+
+(** extra operations of the quadratic losses of scico/loss.py (coq/gen/C09_SqL2*Loss.v) *)
+Class LossSig (C R : Type) := {
+  l_sub : C -> C -> C;          (* self.y - self.A(x) *)
+  l_subR : C -> R -> C;         (* self.y - snp.abs(...): a real array subtracted from the (complex) data *)
+}.
+Section LossInstances.
+  Context {C R : Type} {LS : LossSig C R}.
+  #[global] Instance HSub_lC : HSub C C C := l_sub.
+  #[global] Instance HSub_lR : HSub C R C := l_subR.
+End LossInstances.
